@@ -17,22 +17,22 @@ fn per_baseline(t: Tier) -> u64 {
 
 fn budget(t: Tier) -> u64 {
     match t {
-        Tier::Quick => 18 * per_baseline(t),
-        Tier::Thorough => 72 * per_baseline(t),
+        Tier::Quick => 24 * per_baseline(t),
+        Tier::Thorough => 96 * per_baseline(t),
     }
 }
 
-const LOADS: [&str; 3] = ["idle", "closed_loop", "flood"];
+const LOADS: [&str; 4] = ["idle", "closed_loop", "flood", "idle_long"];
 
 fn baseline(b: u64) -> Plan {
     let bseed = Rng::derive(crate::driver::base_seed().wrapping_add(b), "c19-baseline").next_u64() >> 1;
     let mut rng = Rng::derive(bseed, "c19");
-    let load = LOADS[(b % 3) as usize];
+    let load = LOADS[(b % 4) as usize];
     let mut plan = Plan::new("C19", &format!("c19.{}", load), bseed);
     let mut s = ServerSpec::basic(Mode::F, &random_seed_hex(&mut rng));
-    s.workers = [1i64, 4, 16][((b / 3) % 3) as usize];
+    s.workers = [1i64, 4, 16][((b / 4) % 3) as usize];
     s.source = if rng.chance(1, 2) { ConfigSource::File } else { ConfigSource::Env };
-    if (b / 9) % 2 == 1 {
+    if (b / 12) % 2 == 1 {
         s.client_stats = Some("on".into());
         s.persist_dir = Some("/tmp".into());
         s.status_interval = Some(*rng.pick(&[1i64, 10]));
@@ -44,6 +44,16 @@ fn baseline(b: u64) -> Plan {
     plan.params.insert("sig".into(), if rng.chance(1, 2) { 2 } else { 15 });
     match load {
         "idle" => {}
+        "idle_long" => {
+            // a server that has been idle for a long time (up to a simulated minute), optionally
+            // after a little traffic at the start
+            if rng.chance(1, 2) {
+                let mut ctr = bseed ^ 0x1d1e;
+                for k in 0..(1 + rng.below(8)) {
+                    plan.step(20_000 + k * 300, Action::Send { sock: k as u32, req: valid_spec(&mut rng, &mut ctr) });
+                }
+            }
+        }
         "closed_loop" => {
             let clients = 1 + rng.below(12) as u32;
             for c in 0..clients {
@@ -60,8 +70,9 @@ fn baseline(b: u64) -> Plan {
             plan.step(20_000, Action::Flood { sock: 0, proto: if rng.chance(1, 2) { P::Classic } else { P::Ietf }, interval_ns: 200_000, count: 20_000 });
         }
     }
-    // the baseline covers 250 ms of serving; runs with a signal go on for 3.5 s after it
-    plan.world.horizon_ms = 270;
+    // the baseline covers 250 ms of serving (a simulated minute for idle_long); runs with a
+    // signal go on for 3.6 s after the end of the baseline
+    plan.world.horizon_ms = if load == "idle_long" { 20_000 + rng.below(40_000) } else { 270 };
     plan.server = Some(s);
     plan
 }
@@ -111,7 +122,7 @@ fn gen(seed: u64, idx: u64, tier: Tier) -> Plan {
         // a second signal shortly afterwards
         plan.step(0, Action::SignalAtStep { step: step + 1 + rng.below(200), sig: if rng.chance(1, 2) { 2 } else { 15 } });
     }
-    plan.world.horizon_ms = 270 + 3_600;
+    plan.world.horizon_ms += 3_600;
     plan
 }
 
@@ -188,6 +199,7 @@ fn check(plan: &Plan, out: &RunOut) -> CheckOut {
     co.probe(match load.as_str() {
         "idle" => "load_idle",
         "closed_loop" => "load_closed_loop",
+        "idle_long" => "load_idle_long",
         _ => "load_flood",
     });
     co.sample = Some(serde_json::json!({
@@ -207,7 +219,7 @@ pub fn property() -> Property {
         gen,
         check,
         finalize: no_finalize,
-        rule: "baselines = real main() booted with num_workers {1,4,16} x client_stats off/on x load {idle, closed-loop clients, open-loop flood of one worker with inter-arrival time below the modelled service time}; for each baseline (fixed plan + tape) the scheduling points after every worker has started serving are counted and SIGINT or SIGTERM is delivered at point k — 40 stratified points per baseline (quick) or 600 (thorough; every point when the baseline has fewer); a fifth of the runs deliver a second signal; the run continues 3.6 simulated s; non-trivial = the handler ran; distinct = distinct schedule fingerprints",
+        rule: "baselines = real main() booted with num_workers {1,4,16} x client_stats off/on x load {idle, long idle (20-60 simulated s), closed-loop clients, open-loop flood of one worker with inter-arrival time below the modelled service time}; for each baseline (fixed plan + tape) the scheduling points after every worker has started serving are counted and SIGINT or SIGTERM is delivered at point k — 40 stratified points per baseline (quick) or 600 (thorough; every point when the baseline has fewer); a fifth of the runs deliver a second signal; the run continues 3.6 simulated s; non-trivial = the handler ran; distinct = distinct schedule fingerprints",
         assumptions: &["exit deadline: 3 simulated seconds after the handler ran (100 ms poll timeout + 1 s reporter sleep + margin)", "flood verdicts depend on the service-time model: ~0.5 ms per request against one datagram every 0.2 ms"],
         real: REAL_F,
         stub: STUB,
